@@ -206,9 +206,13 @@ func (m *mutator) mutate(d *D, ctx int, top bool) *D {
 	case "bool", "NBool":
 		c.N = 1 - d.N
 	case "float32", "float64", "NFloat", "SVFloat", "ISafeFloat":
-		c.F = mutFloat(d.F)
+		if d.S == "" {
+			c.F = mutFloat(d.F)
+		}
 	case "complex64", "complex128":
-		c.F = mutFloat(d.F)
+		if d.S == "" {
+			c.F = mutFloat(d.F)
+		}
 		if d.N != 0 {
 			c.N = d.N * 2
 		}
